@@ -147,8 +147,19 @@ static const char* OPS[] = {
   "rel_gen", "bounds", "max_min",                                                                      // 7-9
   "add_constraint", "refine_constraint", "add_generator", "affine_image", "affine_preimage",           // 10-14
   "gen_affine_image", "embed", "project", "remove", "remove_higher", "unconstrain", "closure",        // 15-21
-  "intersection", "hull", "time_elapse", "concat", "copy" };                                           // 22-26
-static const unsigned NOPS = 27;
+  "intersection", "hull", "time_elapse", "concat", "copy",                                             // 22-26
+  "expand", "fold", "map" };                                                                           // 27-29
+static const unsigned NOPS = 30;
+
+struct PFunc {
+  std::vector<long> m;     // -1 = undefined
+  bool has_empty_codomain() const { for (long k : m) if (k >= 0) return false; return true; }
+  dimension_type max_in_codomain() const { long mx = 0; for (long k : m) if (k > mx) mx = k; return (dimension_type) mx; }
+  bool maps(dimension_type i, dimension_type& j) const {
+    if (i >= m.size() || m[i] < 0) return false;
+    j = (dimension_type) m[i]; return true;
+  }
+};
 
 static void one_history(long id, uint64_t seed, long maxdim, unsigned long opmask, long maxlen) {
   Rng r(seed * 1000003ull + (uint64_t) id * 7919ull + 29);
@@ -179,6 +190,10 @@ static void one_history(long id, uint64_t seed, long maxdim, unsigned long opmas
       if ((op == 16 || op == 17) && ds >= (dimension_type) maxdim + 1) continue;
       if ((op == 13 || op == 14 || op == 15) && ds == 0) continue;
       if (op == 21 && !nnc) continue;
+      if (op == 27 && (ds == 0 || ds >= (dimension_type) maxdim + 1)) continue;
+      if (op == 28 && ds < 2) continue;
+      // receivers that are already marked empty are taken less often
+      if (P[s]->marked_empty() && r.chance(3, 4)) continue;
       break;
     }
     Polyhedron& x = *P[s];
@@ -270,6 +285,30 @@ static void one_history(long id, uint64_t seed, long maxdim, unsigned long opmas
       case 23: { o << " " << s << " " << t; two = true; x.poly_hull_assign(y); break; }
       case 24: { o << " " << s << " " << t; two = true; x.time_elapse_assign(y); break; }
       case 25: { o << " " << s << " " << t; two = true; x.concatenate_assign(y); break; }
+      case 27: {
+        dimension_type v = r.below((unsigned) d), m = (dimension_type) r.range(0, 2);
+        o << " " << s << " " << v << " " << m;
+        x.expand_space_dimension(Variable(v), m);
+        break; }
+      case 28: {
+        dimension_type dest = r.below((unsigned) d);
+        Variables_Set vs;
+        for (dimension_type i = 0; i < d; ++i) if (i != dest && r.chance(1, 2)) vs.insert(i);
+        o << " " << s << " " << dest << " " << vs.size();
+        for (Variables_Set::const_iterator i = vs.begin(); i != vs.end(); ++i) o << " " << *i;
+        x.fold_space_dimensions(vs, Variable(dest));
+        break; }
+      case 29: {
+        // a permutation of the dimensions, or (one time in six) a map with empty codomain
+        PFunc f; f.m.assign(d, -1);
+        if (!r.chance(1, 6)) {
+          std::vector<long> tgt; for (dimension_type i = 0; i < d; ++i) tgt.push_back((long) i);
+          for (dimension_type i = d; i > 1; --i) std::swap(tgt[i - 1], tgt[r.below((unsigned) i)]);
+          for (dimension_type i = 0; i < d; ++i) f.m[i] = tgt[i];
+        }
+        o << " " << s << " " << d; for (dimension_type i = 0; i < d; ++i) o << " " << f.m[i];
+        x.map_space_dimensions(f);
+        break; }
       default: {
         // copy construction: slot s := copy of slot t
         o << " " << s << " " << t; two = false;
